@@ -36,6 +36,10 @@ import vlib
 vlib.bootstrap()
 
 from checks import _c16_gen as gen  # noqa: E402
+from checks import _c16_fam as fam  # noqa: E402
+
+KEY_ABS = "C16:absolute-path-reference-not-replaced-in-arguments"
+KEY_ORDER = "C16:stage-less-reference-replaced-inside-equally-long-reference"
 
 KEY_DIROFF = "C16:bare-producer-reference-off-the-command-line-ignored"
 KEY_DIGIT = "C16:trailing-digits-stripped-from-component-name"
@@ -88,6 +92,126 @@ def materialise(spec: Dict[str, Any], root: str) -> Dict[str, Any]:
         out[cs.identification.componentName] = [cs.memoization_hash, cs.memoization_hash_fuzzy]
     shutil.rmtree(base, ignore_errors=True)
     return out
+
+
+def materialise_case(case: Dict[str, Any], root: str) -> Dict[str, Any]:
+    """Family cases (checks/_c16_fam.py): the document is given; `@EXT@` stands for the absolute path of the external
+    directory of THIS materialisation.  Returns {'stageN.name': [strong, fuzzy]}."""
+    import yaml
+    import experiment.model.data
+    import experiment.model.storage
+    base = os.path.join(root, *case["where"].split("/"))
+    os.makedirs(base, exist_ok=True)
+    ext = os.path.join(base, *case["extdir"].split("/"))
+    touched = []
+    for rel, text in case["external"].items():
+        os.makedirs(ext, exist_ok=True)
+        with open(os.path.join(ext, rel), "w") as f:
+            f.write(text)
+        touched.append(os.path.join(ext, rel))
+    pkg = os.path.join(base, "the.package")
+    os.makedirs(os.path.join(pkg, "conf"))
+    text = yaml.safe_dump(case["doc"], sort_keys=False).replace("@EXT@", ext)
+    with open(os.path.join(pkg, "conf", "flowir_package.yaml"), "w") as f:
+        f.write(text)
+    for rel, content in case["data"].items():
+        p = os.path.join(pkg, rel)
+        os.makedirs(os.path.dirname(p), exist_ok=True)
+        with open(p, "w") as f:
+            f.write(content)
+    package = experiment.model.storage.ExperimentPackage.packageFromLocation(pkg)
+    exp = experiment.model.data.Experiment.experimentFromPackage(package, location=base)
+    inst = exp.instanceDirectory
+    g = exp.experimentGraph
+    for n in g.graph.nodes:
+        cs = g.graph.nodes[n]["componentSpecification"]
+        wd = inst.workingDirectoryForComponent(cs.identification.stageIndex, cs.identification.componentName)
+        os.makedirs(wd, exist_ok=True)
+        for fn, content in (case["outputs"].get(n) or {}).items():
+            with open(os.path.join(wd, fn), "w") as f:
+                f.write(content)
+            touched.append(os.path.join(wd, fn))
+    for rel in case.get("missing_external") or []:
+        os.remove(os.path.join(ext, rel))
+        touched.remove(os.path.join(ext, rel))
+    for p in touched:
+        os.utime(p, (case["mtime"], case["mtime"]))
+    for n in g.graph.nodes:
+        g.graph.nodes[n]["componentSpecification"].memoization_reset()
+    out = {}
+    for n in sorted(g.graph.nodes):
+        cs = g.graph.nodes[n]["componentSpecification"]
+        out[n] = [cs.memoization_hash, cs.memoization_hash_fuzzy]
+    shutil.rmtree(base, ignore_errors=True)
+    return out
+
+
+def run_family_case(w, fc: Dict[str, Any], root: str):
+    try:
+        hb = materialise_case(fc["E"], os.path.join(root, "f%d" % fc["index"], "E"))
+    except Exception as exc:
+        w.count("family_base_did_not_load")
+        w.note_inconclusive("family case %s %d does not load: %s" % (fc["fam"], fc["index"], str(exc)[-300:]))
+        return
+    j = fc["judged"]
+    if hb[j][0] is None or hb[j][1] is None:
+        w.count("family_base_without_hash")
+        w.note_inconclusive("family case %s %d has no hash for %s: %s" % (fc["fam"], fc["index"], j, hb))
+        return
+    w.count("family_bases")
+    w.count("family_bases_" + fc["fam"])
+    if fc.get("tie"):
+        w.count("family_O_bases_with_equally_long_same_name_references")
+    for k, v in enumerate(fc["variants"]):
+        try:
+            he = materialise_case(v["case"], os.path.join(root, "f%d" % fc["index"], "v%d" % k))
+        except Exception as exc:
+            w.count("edited_experiment_did_not_load")
+            w.count("edited_experiment_did_not_load_" + v["id"])
+            if os.environ.get("VERIF_DEBUG"):
+                print("LOADFAIL", v["id"], repr(exc)[:500])
+            continue
+        w.evaluated()
+        w.count("pairs")
+        w.count("pairs_" + v["id"])
+        w.distinct("%s|%s" % (v["id"], fc["klass"]))
+        for which, want, a, b in (("strong", v["strong"], hb[j][0], he[j][0]), ("fuzzy", v["fuzzy"], hb[j][1], he[j][1])):
+            if want is None:
+                w.count("info_%s_%s_%s" % (v["id"], which, "same" if a == b else ("none" if b is None else "changed")))
+                continue
+            wit = {"family_case": fc, "variant": v["id"], "variant_index": k, "which": which, "demanded": want,
+                   "hash_E": a, "hash_E_prime": b, "hashes_E": hb, "hashes_E_prime": he}
+            if want == gen.EQUAL:
+                w.count("%s_must_be_equal_judged" % which)
+                w.count("family_%s_must_be_equal_judged_%s" % (which, v["id"]))
+                if a != b:
+                    key = None
+                    # structural classifiers of the two known mechanisms (both: how references are found again in the
+                    # argument string when they are replaced by hashes)
+                    if v["id"] == "A1-external-files-live-elsewhere" and b is not None and \
+                            fam.names_absolute_reference_on_cmdline(fc["E"], j):
+                        key = KEY_ABS
+                    if v["id"] == "O1-references-field-permuted" and b is not None and \
+                            fam.has_suffix_spelling_tie(fc["E"], j):
+                        key = KEY_ORDER
+                    w.violation("%s hash of %s changed under a hash-irrelevant edit (%s: %s): %s -> %s" % (
+                        which, j, v["id"], json.dumps(v["detail"])[:160], a, b), wit, finding_key=key)
+            elif want == gen.DIFFER:
+                if b is None:
+                    w.count("%s_differ_edit_gave_no_hash_not_judged" % which)
+                    continue
+                w.count("%s_must_differ_judged" % which)
+                if a == b:
+                    w.violation("%s hash of %s unchanged under a hash-relevant edit (%s: %s): %s" % (
+                        which, j, v["id"], json.dumps(v["detail"])[:160], a), wit)
+            elif want == gen.NONE:
+                w.count("%s_must_be_none_judged" % which)
+                if b is not None:
+                    w.violation("%s hash %s of %s produced while a referenced input is missing (%s: %s)" % (
+                        which, b, j, v["id"], json.dumps(v["detail"])[:160]), wit)
+        if len(w.samples) < w.max_samples + 2 and k == 0 and fc["index"] < 4:
+            w.sample({"family": fc["fam"], "variant": v["id"], "detail": v["detail"], "flowir_E": fc["E"]["doc"],
+                      "judged": j, "hashes_E": hb[j], "hashes_E_prime": he[j]}, force=True)
 
 
 # ----------------------------------------------------------------------------- oracle
@@ -253,7 +377,15 @@ def run_job(job: Dict[str, Any], w: vlib.Worker):
     if job.get("replay"):
         run_base(w, job["replay"]["base"], root, 0, only_edit=job["replay"]["edit"])
         return
-    for i in job["bases"]:
+    if job.get("replay_family"):
+        fc = job["replay_family"]["case"]
+        fc = dict(fc, variants=[fc["variants"][job["replay_family"]["variant_index"]]])
+        run_family_case(w, fc, root)
+        return
+    for i in job.get("family", []):
+        fc = json.loads(json.dumps(fam.gen_family_case(vlib.rng("family", i), i)))
+        run_family_case(w, fc, root)
+    for i in job.get("bases", []):
         spec = gen.gen_spec(vlib.rng("base", i))
         spec = json.loads(json.dumps(spec))
         run_base(w, spec, root, i)
@@ -286,11 +418,18 @@ def main():
     rp = vlib.load_replay(sys.argv)
     if rp is not None:
         wit = rp["witness"]
-        vlib.fanout("checks.C16", [{"replay": {"base": wit["base"], "edit": wit["edit"]}}], c, timeout=300)
+        if "family_case" in wit:
+            job = {"replay_family": {"case": wit["family_case"], "variant_index": wit["variant_index"]}}
+        else:
+            job = {"replay": {"base": wit["base"], "edit": wit["edit"]}}
+        vlib.fanout("checks.C16", [job], c, timeout=300)
         sys.exit(c.finish())
     nbases = 640 if c.tier == "thorough" else 48
     per = 10 if c.tier == "thorough" else 3
     jobs = [{"bases": list(range(i, min(i + per, nbases)))} for i in range(0, nbases, per)]
+    nfam = 600 if c.tier == "thorough" else 48          # absolute-path / reference-order document families (tiny)
+    perf = 30 if c.tier == "thorough" else 12
+    jobs += [{"family": list(range(i, min(i + perf, nfam)))} for i in range(0, nfam, perf)]
     vlib.fanout("checks.C16", jobs, c, timeout=900)
     c.extra["plan"] = {"bases": nbases, "bases_per_worker": per}
     c.floor("bases", int(nbases * 0.95))
@@ -301,6 +440,12 @@ def main():
     c.floor("fuzzy_must_be_equal_judged", nbases * 6)
     c.floor("chain_links_producer_fuzzy_changed_judged", nbases)
     c.floor("twin_judged", int(nbases * 0.9))
+    c.floor("family_bases_A", int(nfam * 0.45))
+    c.floor("family_bases_O", int(nfam * 0.45))
+    c.floor("family_O_bases_with_equally_long_same_name_references", nfam // 6)
+    c.floor("pairs_A1-external-files-live-elsewhere", int(nfam * 0.45))
+    c.floor("pairs_O1-references-field-permuted", int(nfam * 0.45))
+    c.floor("pairs_A2-external-file-content", int(nfam * 0.4))
     c.floor("H_pairs", nbases)
     c.floor("H_root_without_any_hash", nbases)
     c.floor("H_pairs_distance_2", nbases // 6)
